@@ -221,6 +221,9 @@ func (r *Runner) builtin(ctx context.Context, pos syntax.Pos, name string, args 
 		}
 
 		for _, arg := range args {
+			if arg == "" {
+				continue // like bash, silently ignore an empty name
+			}
 			if name, sub, ok := cutElemSubscript(arg); vars && ok {
 				if !r.unsetElem(name, sub) {
 					exit.code = 1
